@@ -29,9 +29,7 @@ func init() {
 	}
 	register("reflect.TypeOf", typeOf)
 	register("internal/reflectlite.TypeOf", typeOf)
-	register("regexp.MustCompile", opaque("*regexp.Regexp"))
 	register("time.Date", opaque("time.Time"))
-	register("time.Unix", opaque("time.Time"))
 	register("(time.Time).UTC", opaque("time.Time"))
 	register("time.LoadLocation", func(m *Machine, fr *frame, fn *ssa.Function, args []Value) Value {
 		return Tuple{&Opaque{Tag: "*time.Location"}, Iface{}}
